@@ -1059,17 +1059,17 @@ func (ex *Exec) mergeGhost(st *State, c *Term, a, b *State) {
 	}
 	for k := range keys {
 		ha, hb := a.heaps[k], b.heaps[k]
-		if ha == nil {
-			ha = st.heaps[k]
-			if ha == nil {
-				ha = hb
+		initial := func() *Term {
+			if t := st.heaps[k]; t != nil {
+				return t
 			}
+			return ex.D.konst(k+"@0", ex.heapSorts[k])
+		}
+		if ha == nil {
+			ha = initial()
 		}
 		if hb == nil {
-			hb = st.heaps[k]
-			if hb == nil {
-				hb = ha
-			}
+			hb = initial()
 		}
 		if ha == hb {
 			st.heaps[k] = ha
